@@ -166,3 +166,222 @@ def c16b_ephemeron(prog, res, cg=None):
                             "never marked and is swept while still referenced"
                             % ", ".join(f.name for f in readers), unit="gc.c"))
     return stat
+
+
+# ------------------------------------------------------------------ C10
+
+ALLOCS = {"sexp_alloc_tagged_aux": (1, 2), "sexp_alloc": (1, None)}
+HEAP_ALIGN = 32
+
+
+def _halign(n):
+    return (n + HEAP_ALIGN - 1) & ~(HEAP_ALIGN - 1)
+
+
+def _result_var(fn, call):
+    """text of the lvalue the call result is stored in (through casts), else None"""
+    cur = call
+    while True:
+        p = fn.parent(cur)
+        if p is None:
+            return None, None
+        pk = fn.nodes[p]["k"]
+        if pk == "cast":
+            cur = p
+            continue
+        if pk == "bin" and fn.nodes[p]["o"] == "=" and fn.nodes[p]["c"][1] == cur:
+            return fn.txt(fn.nodes[p]["c"][0]), p
+        if pk == "decl":
+            return fn.nodes[p]["o"], p
+        if pk == "ret":
+            return "<returned>", p
+        return None, p
+
+
+def c10a_alloc_sites(prog, res):
+    from cfg import linform, lin_sub, elem_positions, enclosing_elem, redefined_between
+    stat = res.stat("C10.a", "allocation sites: size expression == size the sweeper recomputes from the type row "
+                    "(size_base + length*size_scale), length field stored with the same n", floor=45)
+    rows, g = tables.type_rows(prog)
+    L = Layout(prog)
+    by_tag = {r["tag"]: r for r in rows}
+    # rows themselves: fixed rows must have the exact struct size
+    for row in rows:
+        m = row["_member"]
+        if m is None:
+            continue
+        stat.sites += 1
+        stat.obligations += 1
+        want = L.sexp_sizeof(m)
+        extra = row["size_base"] - want
+        okrow = True
+        if row["size_scale"] == 0:
+            if _halign(row["size_base"]) != _halign(want) or row["size_base"] < want:
+                okrow = False
+                msg = "row %s: size_base %d but sizeof header+value.%s is %d" % (row["_name"], row["size_base"], m, want)
+        else:
+            f = L.field_at(m, row["size_off"])
+            if f is None or f[1] != "unsigned long":
+                okrow = False
+                msg = "row %s: size_off %d is not an unsigned word field of value.%s" % (row["_name"], row["size_off"], m)
+            elif extra < 0 or extra > 1:
+                okrow = False
+                msg = "row %s: size_base %d vs sizeof %d" % (row["_name"], row["size_base"], want)
+        if okrow:
+            stat.discharged += 1
+        else:
+            res.add(Finding("C10", "C10.a.row-size", "_sexp_type_specs", "row %s size" % row["_name"],
+                            "sexp.c:%d" % row["_line"], msg, unit="sexp.c"))
+    for fn in prog.all_funcs():
+        for i, nd in enumerate(fn.nodes):
+            if nd["k"] != "call" or nd.get("o") not in ALLOCS:
+                continue
+            if fn.name == "sexp_alloc_tagged_aux":
+                continue
+            si, ti = ALLOCS[nd["o"]]
+            args = nd["c"][1:]
+            size_n = args[si]
+            stat.sites += 1
+            var, holder = _result_var(fn, i)
+            tagv = None
+            tag_desc = None
+            if ti is not None:
+                tagv = fn.const_val(args[ti])
+                tag_desc = fn.txt(args[ti])
+            else:
+                # raw sexp_alloc: find the tag store on the result variable
+                for j, n2 in enumerate(fn.nodes):
+                    if n2["k"] == "bin" and n2["o"] == "=":
+                        lhs = fn.strip(n2["c"][0])
+                        if fn.nodes[lhs]["k"] == "mem" and fn.nodes[lhs]["o"] == "tag" and var and \
+                                fn.txt(fn.strip(fn.nodes[lhs]["c"][0])) == var:
+                            tagv = fn.const_val(n2["c"][1])
+                            tag_desc = fn.txt(n2["c"][1])
+                if tagv is None and fn.name == "sexp_alloc_tagged_aux":
+                    continue
+            disc = "%s %s" % (nd["o"], tag_desc or "?")
+            if tagv is None:
+                # dynamic tag: user-registered type; by-construction sites are named in evidence
+                lf = linform(fn, size_n)
+                stat.sample({"site": fn.where(i), "function": fn.name, "tag": tag_desc,
+                             "size": fn.txt(size_n)[:60], "verdict": "dynamic tag - size not compared against a core row"}, limit=3)
+                continue
+            row = by_tag.get(tagv)
+            if row is None or row["_member"] is None:
+                res.add(Finding("C10", "C10.a.unknown-tag", fn.name, disc, fn.where(i),
+                                "allocation with tag %s that has no sized type row" % tag_desc, unit=fn.unit.display))
+                continue
+            stat.obligations += 1
+            lf = linform(fn, size_n)
+            if row["size_scale"] == 0:
+                if lf[1] or _halign(lf[0]) != _halign(row["size_base"]) or lf[0] < row["size_base"]:
+                    res.add(Finding("C10", "C10.a.fixed-size", fn.name, disc, fn.where(i),
+                                    "allocates %s bytes for a %s but the sweeper computes %d from the type row: the sweep "
+                                    "would walk into the middle of the next object"
+                                    % (fn.txt(size_n)[:60], row["_name"], row["size_base"]), unit=fn.unit.display))
+                else:
+                    stat.discharged += 1
+                    if lf[0] != row["size_base"]:
+                        res.notes.append("%s: %s allocated with %d bytes, row says %d (same %d-byte chunk)"
+                                         % (fn.where(i), row["_name"], lf[0], row["size_base"], HEAP_ALIGN))
+                continue
+            # variable-size row: find the store to the length field
+            m = row["_member"]
+            lf_field = L.field_at(m, row["size_off"])[0]
+            stores = []
+            for j, n2 in enumerate(fn.nodes):
+                if n2["k"] == "bin" and n2["o"] == "=":
+                    lhs = fn.strip(n2["c"][0])
+                    ln = fn.nodes[lhs]
+                    if ln["k"] == "mem" and ln["o"] == lf_field:
+                        root, path = fn.mempath(lhs)
+                        if path[:1] == ["value"] and len(path) == 3 and fn.txt(root) == var:
+                            stores.append((j, n2["c"][1], path[1]))
+            if not stores:
+                res.add(Finding("C10", "C10.a.no-length-store", fn.name, disc, fn.where(i),
+                                "allocates a variable-size %s but never stores its %s field, which the sweeper multiplies "
+                                "by %d to find the object's end" % (row["_name"], lf_field, row["size_scale"]),
+                                unit=fn.unit.display))
+                continue
+            bad = None
+            pos = elem_positions(fn)
+            pa = enclosing_elem(fn, i, pos)
+            for (j, rhs, mem) in stores:
+                ls = linform(fn, rhs)
+                diff = lin_sub(lin_sub(lf, (row["size_base"], {})), ls, row["size_scale"])
+                if diff[1] or not (0 <= diff[0] <= 0):
+                    bad = (j, rhs, diff)
+                    continue
+                # the same symbol must denote the same value at both places
+                pb = enclosing_elem(fn, j, pos)
+                for x in set(fn.refs_in(size_n)) | set(fn.refs_in(rhs)):
+                    if pa and pb and redefined_between(fn, x, pa, pb, pos):
+                        bad = (j, rhs, (0, {"%s redefined between allocation and length store" % fn.vars[x]["n"]: 1}))
+            if bad:
+                res.add(Finding("C10", "C10.a.var-size", fn.name, disc, fn.where(i),
+                                "allocates %s bytes for a %s and stores %s = %s, but the sweeper computes %d + %s*%d: "
+                                "extents disagree (difference %s)"
+                                % (fn.txt(size_n)[:60], row["_name"], lf_field, fn.txt(bad[1])[:40], row["size_base"],
+                                   lf_field, row["size_scale"], _lf_txt(bad[2])), unit=fn.unit.display))
+            else:
+                stat.discharged += 1
+                stat.sample({"site": fn.where(i), "function": fn.name, "row": row["_name"],
+                             "alloc": fn.txt(size_n)[:50], "length_store": fn.txt(stores[0][1])[:40],
+                             "sweeper": "%d + %s*%d" % (row["size_base"], lf_field, row["size_scale"])})
+    return stat
+
+
+def _lf_txt(lf):
+    parts = [str(lf[0])] + ["%+d*%s" % (c, t) for t, c in lf[1].items()]
+    return " ".join(parts)
+
+
+def c10b_length_writers(prog, res):
+    from cfg import dominators, elem_positions, enclosing_elem, dominates
+    stat = res.stat("C10.b", "stores to size-determining length fields happen only on an object allocated in the "
+                    "same function (construction), never on a live object", floor=8)
+    rows, g = tables.type_rows(prog)
+    L = Layout(prog)
+    sizefields = {}
+    for row in rows:
+        if row["_member"] and row["size_scale"]:
+            f = L.field_at(row["_member"], row["size_off"])
+            if f:
+                sizefields[(row["_member"], f[0])] = row
+    # members sharing a layout with a sized member through retagging (symbol <- bytes)
+    for fn in prog.all_funcs():
+        pos = None
+        for i, nd in enumerate(fn.nodes):
+            if nd["k"] != "bin" or not nd["o"].endswith("=") or nd["o"] in ("==", "!=", "<=", ">="):
+                continue
+            lhs = fn.strip(nd["c"][0])
+            ln = fn.nodes[lhs]
+            if ln["k"] != "mem":
+                continue
+            root, path = fn.mempath(lhs)
+            if len(path) != 3 or path[0] != "value" or (path[1], path[2]) not in sizefields:
+                continue
+            stat.sites += 1
+            stat.obligations += 1
+            base = fn.txt(root)
+            if pos is None:
+                pos = elem_positions(fn)
+                dom = dominators(fn)
+            here = enclosing_elem(fn, i, pos)
+            fresh = False
+            for j, n2 in enumerate(fn.nodes):
+                if n2["k"] == "call" and n2.get("o") in ALLOCS:
+                    var, holder = _result_var(fn, j)
+                    if var == base and dominates(dom, enclosing_elem(fn, j, pos), here):
+                        fresh = True
+            if fresh and nd["o"] == "=":
+                stat.discharged += 1
+                stat.sample({"site": fn.where(i), "function": fn.name, "store": "%s.%s of %s" % (path[1], path[2], base),
+                             "verdict": "object allocated earlier in the same function on every path"})
+            else:
+                res.add(Finding("C10", "C10.b.resize-live-object", fn.name, "%s.%s of %s" % (path[1], path[2], base),
+                                fn.where(i),
+                                "writes %s.%s (which the sweeper uses to compute the object's extent) on an object that was "
+                                "not allocated in this function: shrinking or growing a live object in place leaves a gap "
+                                "or an overlap the sweep cannot parse" % (path[1], path[2]), unit=fn.unit.display))
+    return stat
